@@ -18,6 +18,7 @@ const (
 	evClose
 	evSelect
 	evSelDefault
+	evChanLen
 )
 
 type chanInfo struct {
@@ -279,6 +280,45 @@ func Close[T any](ch chan T) {
 	ci.closed = true
 	s.event(evClose, &ci.obj, true)
 	close(ch)
+}
+
+// Len replaces len(ch) on a channel: a scheduling point, and a read of the channel's state whose answer
+// (it depends on the order against the sends and receives of other tasks) goes into the state key.
+func Len[T any](ch chan T, site string) int {
+	s, mode := cur()
+	if mode != modeSched || ch == nil {
+		return len(ch)
+	}
+	ci := s.chanInfo(chanPtr(ch), "chan", ch)
+	s.point(&Op{Kind: "chan len", Obj: &ci.obj, Site: site})
+	n := len(ch)
+	s.event(evChanLen+uint64(n)<<16, &ci.obj, false)
+	return n
+}
+
+// LenRecv / LenSend are Len for directional channel values.
+func LenRecv[T any](ch <-chan T, site string) int {
+	s, mode := cur()
+	if mode != modeSched || ch == nil {
+		return len(ch)
+	}
+	ci := s.chanInfo(rchanPtr(ch), "chan", ch)
+	s.point(&Op{Kind: "chan len", Obj: &ci.obj, Site: site})
+	n := len(ch)
+	s.event(evChanLen+uint64(n)<<16, &ci.obj, false)
+	return n
+}
+
+func LenSend[T any](ch chan<- T, site string) int {
+	s, mode := cur()
+	if mode != modeSched || ch == nil {
+		return len(ch)
+	}
+	ci := s.chanInfo(schanPtr(ch), "chan", ch)
+	s.point(&Op{Kind: "chan len", Obj: &ci.obj, Site: site})
+	n := len(ch)
+	s.event(evChanLen+uint64(n)<<16, &ci.obj, false)
+	return n
 }
 
 // CloseSend is Close for send-only channel values.
